@@ -7,11 +7,12 @@ import VoluteModel.Model.Api
 `CertRel n f c perm mask` is the reading of the certificate in the property:
 `c(y) = f(x) xor mask[n]` where `x[perm[i]] = y[i] xor mask[i]` for all i.
 
-Proved for every function of n <= 8 variables, the range the property quantifies over (the
-sequence facts are kernel-evaluated for the tables n <= 6 regenerated from the source, in
-Lemmas/SeqFacts.lean, and for the model of the runtime generators at n = 7 and n = 8, in
-Lemmas/SeqCore.lean); the walk/certificate argument itself (Lemmas/CanonMain.lean) is for every n
-and every admissible closed sequence.
+Proved for every n: P for every n >= 2, N and NPN for every n <= 64 (the width of
+`trailing_zeros` in the Gray-flip generator); the property quantifies over n <= 8.  The sequence
+facts are kernel-evaluated for the tables n <= 6 regenerated from the source
+(Lemmas/SeqFacts.lean) and PROVED for the run-time generators for every n
+(Lemmas/Gray.lean, Lemmas/Sjt.lean); the walk/certificate argument itself (Lemmas/CanonMain.lean)
+is for every n and every admissible closed sequence.
 -/
 
 namespace VoluteModel.Props.C05
@@ -239,12 +240,12 @@ theorem result_wellformed (n : Nat) (f c : Array W) (perm : Array Nat) (mask : N
       (fun e he f hf => (hv e he).2 f hf)
     rw [← hc] at this; exact this
 
-/-- **C05, P**: for every f of 2 <= n <= 8 variables the returned permutation is a permutation of
+/-- **C05, P**: for every f of n >= 2 variables the returned permutation is a permutation of
     0..n, no complementation is used, and the certificate maps f to the result - also when f is
     already its own representative. -/
-theorem p_certificate (n : Nat) (h2 : 2 ≤ n) (h8 : n ≤ 8) (f : Array W) (hf : WF n f) :
+theorem p_certificate (n : Nat) (h2 : 2 ≤ n) (f : Array W) (hf : WF n f) :
     ∃ c perm, pCanonization n f = some (c, perm) ∧ IsPerm n perm ∧ CertRel n f c perm 0 := by
-  obtain ⟨sw, hsw, hs, _⟩ := swapsFor_facts n h2 h8
+  obtain ⟨sw, hsw, hs, _⟩ := swapsFor_facts n h2
   obtain ⟨c, perm, h1, r⟩ := p_result n f hf h2 sw hsw hs
   exact ⟨c, perm, h1, (result_wellformed n f c perm 0 _ (p_safe n sw hs).1 r).1, r.rel⟩
 
@@ -256,10 +257,10 @@ theorem n_certificate (n : Nat) (h1 : 1 ≤ n) (h64 : n ≤ 64) (f : Array W) (h
   exact ⟨c, mask, h, (result_wellformed n f c _ mask _ (n_safe n fl hfl).1 r).2, r.rel⟩
 
 /-- **C05, NPN** -/
-theorem npn_certificate (n : Nat) (h2 : 2 ≤ n) (h8 : n ≤ 8) (f : Array W) (hf : WF n f) :
+theorem npn_certificate (n : Nat) (h2 : 2 ≤ n) (h64 : n ≤ 64) (f : Array W) (hf : WF n f) :
     ∃ c perm mask, npnCanonization n f = some (c, perm, mask) ∧ IsPerm n perm ∧ mask < 2 ^ (n + 1) ∧
       CertRel n f c perm mask := by
-  obtain ⟨sw, hsw, hs, _⟩ := swapsFor_facts n h2 h8
+  obtain ⟨sw, hsw, hs, _⟩ := swapsFor_facts n h2
   obtain ⟨fl, hfl', hfl, _⟩ := flipsFor_facts n (by omega) (by omega)
   obtain ⟨c, perm, mask, h, r⟩ := npn_result n f hf h2 sw fl hsw hfl' hs hfl
   obtain ⟨w1, w2⟩ := result_wellformed n f c perm mask _ (npn_safe n sw fl hs hfl).1 r
@@ -292,12 +293,12 @@ theorem npn_small (n : Nat) (h : n ≤ 1) (f : Array W) :
   simp only [h, if_true]
 
 /-- API level (both types go through the same functions): the certificate returned with
-    `npn_canonization` for any function of 0..8 variables -/
-theorem api_npn (l : Lut) (hl : l.WF) (h8 : l.n ≤ 8) :
+    `npn_canonization` for any function of 0..64 variables -/
+theorem api_npn (l : Lut) (hl : l.WF) (h64 : l.n ≤ 64) :
     ∃ c perm mask, Dyn.npnCanonization l = some (c, perm, mask) ∧ c.n = l.n ∧ IsPerm l.n perm ∧
       mask < 2 ^ (l.n + 1) ∧ CertRel l.n l.t c.t perm mask := by
   by_cases h2 : 2 ≤ l.n
-  · obtain ⟨c, perm, mask, h, w1, w2, w3⟩ := npn_certificate l.n h2 h8 l.t hl
+  · obtain ⟨c, perm, mask, h, w1, w2, w3⟩ := npn_certificate l.n h2 h64 l.t hl
     exact ⟨⟨l.n, c⟩, perm, mask, by simp [Dyn.npnCanonization, h], rfl, w1, w2, w3⟩
   · have hle : l.n ≤ 1 := by omega
     by_cases h0 : l.n = 0
